@@ -47,6 +47,29 @@ func checkReturnIs(c *Ctx, rule, construct string, f *ssa.Function, k int, want,
 			diff = a.T
 		}
 	}
+	if !allEq {
+		// the same wrapper with a local helper in between: inline same-package helpers, but keep every
+		// callee the expected term itself names
+		var keep []string
+		if wt := parseTerm(want); wt != nil {
+			wt.walk(func(x *Term) {
+				if x.Op == "call" {
+					keep = append(keep, x.Name)
+				}
+			})
+		}
+		dtb := newDeepTB(f, keep...)
+		dalts := resultAlts(dtb, f, k)
+		deq := len(dalts) > 0
+		for _, a := range dalts {
+			if a.T.String() != want {
+				deq = false
+			}
+		}
+		if deq {
+			allEq = true
+		}
+	}
 	if allEq {
 		c.ok(rule, construct, f.Pos(), okWhy)
 		return
@@ -197,6 +220,41 @@ func lenLowerBound(tb *TermBuilder, b *ssa.BasicBlock, x string) int64 {
 			}
 		}
 	}
+	// the same facts read off the path condition (sees through predicate helpers and bool variables)
+	for _, a := range pathCond(tb, b.Parent().Blocks[0], b).atoms() {
+		if a.Disj || a.Atom.Op != "binop" || len(a.Atom.Args) != 2 {
+			continue
+		}
+		l, r := a.Atom.Args[0], a.Atom.Args[1]
+		ls, rs := l.String(), r.String()
+		lk, lok := l.constInt()
+		rk, rok := r.constInt()
+		up := func(v int64) {
+			if v > lb {
+				lb = v
+			}
+		}
+		switch a.Atom.Name {
+		case "==":
+			if a.Neg && ((ls == lenx && rok && rk == 0) || (rs == lenx && lok && lk == 0) || (ls == x && r.isConst(`""`)) || (rs == x && l.isConst(`""`))) {
+				up(1)
+			}
+		case "<":
+			if ls == lenx && rok && a.Neg {
+				up(rk)
+			}
+			if rs == lenx && lok && !a.Neg {
+				up(lk + 1)
+			}
+		case "<=":
+			if rs == lenx && lok && !a.Neg {
+				up(lk)
+			}
+			if ls == lenx && rok && a.Neg {
+				up(rk + 1)
+			}
+		}
+	}
 	return lb
 }
 
@@ -204,7 +262,7 @@ func lenLowerBound(tb *TermBuilder, b *ssa.BasicBlock, x string) int64 {
 // guard implying the string is long enough. Returns number of sites.
 func checkPrefix(c *Ctx, rule string, f *ssa.Function) int {
 	c.useFn(f)
-	tb := newTB(f)
+	tb := newDeepTB(f)
 	n := 0
 	eachInstr(f, func(i ssa.Instruction) {
 		var x ssa.Value
